@@ -46,6 +46,11 @@ def build_problem(kind):
     if kind == "multi-min":
         # a multi-objective problem that happens to have ONE objective, minimised
         return MultiObjectiveProblem(minimize=[True], fitness_function=lambda p: [p[1]])   # (the library's default aggregate)
+    if kind == "multi-both":
+        # BOTH a user aggregate and a criterion for the best individual, which disagree: the aggregate is what `is_better` and the
+        # recorded fitness go by (aggregate_fitness takes precedence in evaluate), so it is what "best" means for elitism too
+        return MultiObjectiveProblem(minimize=[False], fitness_function=lambda p: [p[1]], aggregate_fitness=lambda comps: comps[0],
+                                     best_individual_criteria_function=lambda p: -p[1])
     return SingleObjectiveProblem(lambda p: p[1], minimize=(kind == "min"))
 
 
@@ -95,7 +100,7 @@ def check_elitism(h: Harness):
     for n in range(0, nmax + 1):
         for values in itertools.product(range(3), repeat=n):
             for k in range(0, n + 2):
-                for kind in ("max", "min", "multi", "multi-min"):
+                for kind in ("max", "min", "multi", "multi-min", "multi-both"):
                     for form in FORMS:
                         if n == 5 and form == "population":
                             continue
@@ -108,18 +113,18 @@ def check_elitism(h: Harness):
             if s and rng.random() < 0.15:
                 shape[s] = shape[rng.randrange(s)]
         values = [rng.randint(-4, 4) for _ in range(n)]
-        elitism_case(h, values, shape, rng.randint(0, n + 1), rng.choice(FORMS), rng.choice(["max", "min", "multi", "multi-min"]), "random")
+        elitism_case(h, values, shape, rng.randint(0, n + 1), rng.choice(FORMS), rng.choice(["max", "min", "multi", "multi-min", "multi-both"]), "random")
     # a few elites out of a LARGE population (the default step keeps 5%), many ties at the cut
     for _ in range(h.n(400, 3000)):
         n = rng.randint(20, 60)
         k = rng.randint(2, max(2, n // 10))
         values = [rng.randint(0, rng.choice([2, 3, 4])) for _ in range(n)]
-        elitism_case(h, values, list(range(n)), k, rng.choice(FORMS), rng.choice(["max", "min", "multi", "multi-min"]), "large")
+        elitism_case(h, values, list(range(n)), k, rng.choice(FORMS), rng.choice(["max", "min", "multi", "multi-min", "multi-both"]), "large")
     # sort_population: stable, best first
     for _ in range(h.n(100, 1000)):
         n = rng.randint(0, 9)
         rep = StubRep(1)
-        kind = rng.choice(["max", "min", "multi", "multi-min"])
+        kind = rng.choice(["max", "min", "multi", "multi-min", "multi-both"])
         problem = build_problem(kind)
         inds = [Individual((i, rng.randint(0, 3), (0,)), rep) for i in range(n)]
         pop = lib_pop(inds, problem)
